@@ -22,6 +22,7 @@
 //!   probe K                          plain connect to bind #K -> p#K=accepted|refused
 //!   binds                            -> binds=#a,#b (sorted)
 //!   close | drop                     -> close=<n errors> | drop
+//!   rebind K                         a NEW socket of the same type binds exactly the endpoint bind #K returned (after close / drop / unbind) -> rb#K=ok|err:<class>
 //!   peers_eof                        every raw connection sees EOF within the grace period -> eof#j=yes|no ...
 //!   ipcpaths                         -> ipc#k=exists|gone
 //!   tasks                            -> tasks=<alive tasks over baseline>
@@ -474,6 +475,17 @@ async fn scenario(head: Vec<String>, ops: Vec<Vec<String>>) -> Vec<String> {
                     }
                     _ => out.push(format!("p#{}=refused", k)),
                 }
+            }
+            "rebind" => {
+                let k: usize = t[1].parse().unwrap();
+                let text = bound[k].to_string();
+                let mut fresh = AnySock::new(&stype, None);
+                match tokio::time::timeout(Duration::from_secs(3), sock_bind(&mut fresh, &text)).await {
+                    Ok(Ok(_)) => out.push(format!("rb#{}=ok", k)),
+                    Ok(Err(e)) => out.push(format!("rb#{}=err:{}", k, zeromq::__verif::error_class(&e))),
+                    Err(_) => out.push(format!("rb#{}=hang", k)),
+                }
+                drop(fresh);
             }
             "close" => {
                 let s = sock.take().expect("socket gone");
